@@ -547,7 +547,7 @@ func (d Driver) Run(c *core.Ctx) error {
 	if _, err := os.Stat(vracePath()); err != nil {
 		c.Broken("race binary /verif/bin/vrace missing (built by /verif/check)")
 	} else {
-		for _, mode := range []string{"mixed", "geometry", "text", "nameless"} {
+		for _, mode := range []string{"mixed", "geometry", "text", "backends", "nameless"} {
 			n := c.Pick(150, 1500)
 			ms := raceRun(mode, c.Seed, n)
 			mach := false
